@@ -731,4 +731,50 @@ theorem step_exposure (c : Cfg) (d : Wl) (r : Int) (s : Step) (o : StepOut)
             omega
         · exact absurd hcall hc
 
+/-- when a step panics -/
+theorem step_panic_cases (c : Cfg) (d : Option Wl) (s : Step) (h : step c d s = .panic) :
+    (∃ w, d = some w ∧ replicasOf w = none) ∨
+    (s.call = .upgradeBatch ∧ ∃ w r, d = some w ∧ replicasOf w = some r ∧ r ≠ 0 ∧
+       (entryOf c.rel s.batch = none ∨ (w.kind = .daemonSet ∧ hasRU w.us = false))) := by
+  by_cases hg : s.fault = .get
+  · cases hc : s.call <;> simp [step, hc, planeInitialize, planeUpgradeBatch, planeFinalize, build, hg] at h
+    cases d <;> simp at h
+    split at h <;> cases h
+  · cases d with
+    | none =>
+      cases hc : s.call <;> simp [step, hc, planeInitialize, planeUpgradeBatch, planeFinalize, build, hg] at h
+    | some w =>
+      cases hr : replicasOf w with
+      | none => left; exact ⟨w, rfl, hr⟩
+      | some r =>
+        right
+        by_cases hl : needsList w = true ∧ s.fault = .list
+        · cases hc : s.call <;>
+            simp only [step, hc, planeInitialize, planeUpgradeBatch, planeFinalize, build, hg, if_false, hr, hl, and_self, if_true] at h
+          all_goals first | cases h | (split at h <;> cases h)
+        · cases hc : s.call
+          · simp only [step, hc, planeInitialize, build, hg, if_false, hr, hl] at h
+            cases h
+          · simp only [step, hc, planeUpgradeBatch, build, hg, if_false, hr, hl] at h
+            refine ⟨rfl, w, r, rfl, hr, ?_⟩
+            by_cases hr0 : r = 0
+            · simp [hr0] at h
+            · refine ⟨hr0, ?_⟩
+              simp only [hr0, if_false] at h
+              by_cases hb : s.batch < 0
+              · left; simp [entryOf, hb]
+              · simp only [hb, if_false] at h
+                cases he : c.rel.batches[s.batch.toNat]? with
+                | none => left; simp [entryOf, hb, he]
+                | some e =>
+                  right
+                  simp only [he] at h
+                  split at h
+                  · assumption
+                  · cases h
+          · simp only [step, hc, planeFinalize, build, hg, if_false, hr, hl] at h
+            cases h
+          · simp only [step, hc] at h
+            split at h <;> cases h
+
 end RV.CtlSts
